@@ -63,8 +63,12 @@ PeerEOF == /\ sent = WireLen /\ ~eof /\ eof' = TRUE
 -----------------------------------------------------------------------------
 (* server *)
 
+\* the application's ContinueHandler refuses the body of a request that carries Expect: 100-continue: the handler is
+\* called without the body having been read, no 100 is sent; afterwards the server must either skip the body or close
+Denied(i) == cfg.deny /\ reqs[i].expect100
+
 \* bytes that must have arrived before the handler of request i can be called
-Need(i) == IF cfg.streaming THEN reqs[i].headEnd ELSE reqs[i].end
+Need(i) == IF cfg.streaming \/ Denied(i) THEN reqs[i].headEnd ELSE reqs[i].end
 
 \* requests the server must not hand to a handler: malformed, over the body limit (buffered mode), or cut short by
 \* the peer closing the connection before the handler could be called (buffered: anywhere; streaming: inside the head)
@@ -86,7 +90,7 @@ InPair == cfg.trace => topen
 
 \* Expect: 100-continue: an interim response may be written after the head was read and before the body is
 \* read (only when the request asked for it; the property does not oblige the server to send it)
-SendInterim == /\ phase = "idle" /\ cur <= N /\ ~MustReject(cur) /\ reqs[cur].expect100 /\ ~interim
+SendInterim == /\ phase = "idle" /\ cur <= N /\ ~MustReject(cur) /\ reqs[cur].expect100 /\ ~interim /\ ~Denied(cur)
                /\ sent >= reqs[cur].headEnd
                /\ interim' = TRUE
                /\ out' = Append(out, [i |-> cur, kind |-> "interim", close |-> FALSE])
@@ -98,7 +102,8 @@ Handle(newrd) ==
     /\ phase = "idle" /\ cur <= N /\ ~MustReject(cur)
     /\ sent >= (IF reqs[cur].partial THEN reqs[cur].headEnd ELSE Need(cur))
     /\ newrd <= sent /\ reqs[cur].headEnd <= newrd /\ newrd <= reqs[cur].end
-    /\ ~cfg.streaming => newrd = reqs[cur].end
+    /\ (~cfg.streaming /\ ~Denied(cur)) => newrd = reqs[cur].end
+    /\ Denied(cur) => newrd = reqs[cur].headEnd
     /\ rd' = newrd /\ cons' = 0
     /\ phase' = "handle"
     /\ hlog' = Append(hlog, cur)
@@ -108,7 +113,7 @@ Handle(newrd) ==
 
 \* streaming: the handler reads k more body bytes; needs them delivered, never more than the body
 StreamRead(k) ==
-    /\ phase = "handle" /\ cfg.streaming
+    /\ phase = "handle" /\ cfg.streaming /\ ~Denied(cur)
     /\ k >= 1 /\ cons + k <= BodyLen(cur)
     /\ cons' = cons + k
     \* the wire position of those bytes must have been delivered (chunk framing included: rd moves at least as far)
@@ -137,7 +142,7 @@ CloseAfter == /\ phase = "after" /\ MustClose
               /\ UNCHANGED <<reqs, cfg, sent, eof, rd, cur, cons, interim, hlog, out, topen, pairReq, tlog>>
 
 \* a server may always give up on a connection whose streamed body was not read completely
-CloseUnread == /\ phase = "after" /\ cfg.streaming /\ rd < reqs[cur].end
+CloseUnread == /\ phase = "after" /\ (cfg.streaming \/ Denied(cur)) /\ rd < reqs[cur].end
                /\ phase' = "closed"
                /\ UNCHANGED <<reqs, cfg, sent, eof, rd, cur, cons, interim, hlog, out, topen, pairReq, tlog>>
 
@@ -228,5 +233,5 @@ HandledOK(n) == \/ n = ExpectedHandled
 \* a voluntary server close (allowed) can only shorten the outcome; without it the outcome is exact
 FinalIndependent == (phase = "closed" /\ \A k \in 1 .. Len(out) : out[k].close => (reqs[out[k].i].close \/ reqs[out[k].i].hclose \/ out[k].kind = "reject"))
                         => \/ HandledOK(Len(hlog))
-                           \/ (cfg.streaming /\ Len(hlog) < ExpectedHandled)   \* CloseUnread
+                           \/ ((cfg.streaming \/ cfg.deny) /\ Len(hlog) < ExpectedHandled)   \* CloseUnread
 =============================================================================
